@@ -54,6 +54,23 @@ int main(int argc, char** argv) {
         if (pl == 0) expect_ok(kase, keyb, {{o.name, val}}, {}); else if (pl == 1) expect_ok(kase, keyb, {}, {{o.name, val}}); else expect_ok(kase, keyb, {{o.name, val}}, {{o.name, other}});
     }
     R.bound_done("every option x 2 values x {cli, cfg, cli+cfg}");
+    // run_anyway (a switch that also takes a value; it is not written to a .cfg and has no place in the shared option table): the same three-level lookup
+    {
+        const char* vals[] = {"", "true", "false", "1", "0"};      // "" = not given
+        for (int ci = 0; ci < 5; ci++) for (int fi = 0; fi < 5; fi++) {
+            std::string kase = std::string("run_anyway cli='") + vals[ci] + "' cfg='" + vals[fi] + "'";
+            if (!R.mine(kase)) continue;
+            std::vector<Setting> cli, cfg; if (ci) cli.push_back({"run_anyway", vals[ci]}); if (fi) cfg.push_back({"run_anyway", vals[fi]});
+            cli.push_back({"GridSize", "64"});      // a bystander after it: a value token must not be mistaken for something else
+            std::string parent; if (!cfg.empty()) { parent = DIR + "/p.cfg"; write_cfg(parent, cfg); }
+            ProgramOptions a; std::string err; int rc = parse(a, cli, parent, err);
+            const bool want = ci ? (ci == 1 || ci == 3) : fi ? (fi == 1 || fi == 3) : false;
+            R.eval(kase, mcx::fnvs(kase) + (rc == 1 ? (a.getForceRun() ? 2 : 1) : 0), ci == 0 && fi == 0);
+            if (rc != 1) { R.violate("C20/precedence/run_anyway/legal-input-rejected", kase, "parse returned " + std::to_string(rc) + " " + err); continue; }
+            if (a.getForceRun() != want || a.getGridSize() != 64) R.violate(std::string("C20/precedence/run_anyway/") + (ci && fi ? "cli-over-cfg" : ci ? "cli" : "cfg"), kase, std::string("getForceRun() = ") + (a.getForceRun() ? "true" : "false") + ", expected " + (want ? "true" : "false") + "; GridSize " + std::to_string(a.getGridSize()));
+        }
+        R.bound_done("run_anyway x {not given, true, false, 1, 0} on the command line x the same in the file");
+    }
     // pairs: option a on the command line, option b in the file (and vice versa): no cross talk
     for (size_t i = 0; i < NOPTS; i++) for (size_t j = 0; j < NOPTS; j++) {
         if (i == j || (!T && (i + j) % 3 != 0)) continue;
